@@ -837,6 +837,12 @@ class BosonicBackend(BaseBosonic):
 
         if modes is None:
             modes = self.get_modes()
+        else:
+            active = self.get_modes()
+            if any(mode not in active for mode in modes):
+                raise ValueError("The specified modes are not valid.")
+            # the data below is returned in ascending mode order: so are the labels
+            modes = sorted(modes)
 
         mode_names = ["q[{}]".format(i) for i in modes]
 
